@@ -41,7 +41,7 @@ impl C13 {
     pub fn new() -> C13 {
         C13 {
             quick: Pool::new(293),
-            thorough: Pool::new(13),
+            thorough: Pool::new(41),
             subsets_q: subsets(2),
             subsets_t: subsets(3),
         }
@@ -151,7 +151,7 @@ impl Property for C13 {
     }
     fn info(&self, tier: Tier) -> Info {
         Info {
-            rule: "program pool (every 293rd / 13th member of the quick S family, clean and with one injected violation of each of the 14 classes) x every compatible subset of <= 2 / <= 3 of 13 rewrite kinds (extra spaces, tabs, commas removed, commas doubled, trailing comments, blank lines, upper-case mnemonics, xN register names, hex / binary immediates, label on the instruction's line, omitted zero offsets, pseudo-instructions replaced by their expansion), each applied at all sites: the multiset of (error code, statement index, operand role) must equal that of the plain rendering. Non-trivial = programs that draw at least one diagnostic".into(),
+            rule: "program pool (every 293rd / 41st member of the quick S family, clean and with one injected violation of each of the 14 classes) x every compatible subset of <= 2 / <= 3 of 13 rewrite kinds (extra spaces, tabs, commas removed, commas doubled, trailing comments, blank lines, upper-case mnemonics, xN register names, hex / binary immediates, label on the instruction's line, omitted zero offsets, pseudo-instructions replaced by their expansion), each applied at all sites: the multiset of (error code, statement index, operand role) must equal that of the plain rendering. Non-trivial = programs that draw at least one diagnostic".into(),
             bounds: json!({"programs": self.pool(tier).count(), "rewrite_subsets": self.subsets(tier).len()}),
             assumptions: vec!["operand roles are compared semantically (rd / rs1 / rs2 / imm / label / whole), so a pseudo-instruction and its expansion are comparable".into()],
             states_counter: "programs",
